@@ -104,6 +104,9 @@ def sort_points(text):
 
 
 # ---------------------------------------------------------------- rustc + run
+LONG_RETRIES = [0]
+
+
 def rustc_and_run(args):
     """compile one emitted source, run it on every stdin; returns (compile_error or None, [(out, err, rc)])"""
     src, stdins, tmp, name, tmo, terminating = args
@@ -121,12 +124,12 @@ def rustc_and_run(args):
     for data, term in zip(stdins, terminating):
         # a run the definition says terminates gets a second, much longer chance before it counts as a time-out (loaded machine)
         for limit in ((tmo, 30) if term else (tmo,)):
-            try:
-                r = subprocess.run([exe], input=data.encode("utf-8"), stdout=subprocess.PIPE, stderr=subprocess.PIPE, timeout=limit)
-                out = (r.stdout, r.stderr, r.returncode)
-                break
-            except subprocess.TimeoutExpired as e:
-                out = (e.stdout or b"", e.stderr or b"", "timeout")
+            if limit == 30 and tmo != 30:
+                LONG_RETRIES[0] += 1
+                if LONG_RETRIES[0] > 4 * NCPU: break      # bounded: an endless compiled program must not make the check endless
+            r = run_capped([exe], input=data.encode("utf-8"), timeout=limit)
+            out = (r.stdout, r.stderr, r.returncode)
+            if r.returncode != "timeout": break
         res.append(out)
     for f in (rs, exe):
         if os.path.exists(f): os.unlink(f)
